@@ -34,11 +34,10 @@ var Stderr = os.Stderr
 type FileInfo = fs.FileInfo
 type FileMode = fs.FileMode
 
-func Getenv(k string) string                             { return os.Getenv(k) }
-func MkdirAll(p string, m FileMode) error                { return os.MkdirAll(p, m) }
-func UserCacheDir() (string, error)                      { return os.UserCacheDir() }
-func WriteFile(n string, d []byte, m FileMode) error     { return os.WriteFile(n, d, m) }
-func IsNotExist(err error) bool                          { return os.IsNotExist(err) }
+func Getenv(k string) string              { return os.Getenv(k) }
+func MkdirAll(p string, m FileMode) error { return os.MkdirAll(p, m) }
+func UserCacheDir() (string, error)       { return os.UserCacheDir() }
+func IsNotExist(err error) bool           { return os.IsNotExist(err) }
 
 // ---- plans, log, crash token
 
@@ -75,14 +74,21 @@ var ctl struct {
 	sched *sched
 }
 
-// Reset clears the log and the counter, closes descriptors leaked by a crash, installs plan.
+// Reset clears the log and the counter and installs plan.  After a crash the descriptors the
+// stopped "process" held are closed (the kernel would have); descriptors a call that RETURNED
+// left open stay open, as they would in a real process (they are a leak, and are seen as one).
 func Reset(plan *Plan) {
 	ctl.mu.Lock()
 	defer ctl.mu.Unlock()
-	for f := range ctl.open {
-		f.f.Close()
+	if ctl.dead {
+		for f := range ctl.open {
+			f.f.Close()
+		}
+		ctl.open = map[*File]bool{}
 	}
-	ctl.open = map[*File]bool{}
+	if ctl.open == nil {
+		ctl.open = map[*File]bool{}
+	}
 	ctl.count = 0
 	ctl.dead = false
 	ctl.plan = plan
@@ -213,6 +219,38 @@ func ReadFile(name string) ([]byte, error) {
 	return b, err
 }
 
+// WriteFile is what os.WriteFile does: OpenFile(O_WRONLY|O_CREATE|O_TRUNC), one Write, Close --
+// three numbered operations, each of which a plan can fail, shorten or stop at.
+func WriteFile(name string, data []byte, perm FileMode) error {
+	f, err := OpenFile(name, O_WRONLY|O_CREATE|O_TRUNC, perm)
+	if err != nil {
+		return err
+	}
+	_, err = f.Write(data)
+	if err1 := f.Close(); err1 != nil && err == nil {
+		err = err1
+	}
+	return err
+}
+
+// CloseLeaked closes the descriptors opened through the shim and still open (after a leak has
+// been recorded, so that it does not slow down or starve the rest of the run).
+func CloseLeaked() {
+	ctl.mu.Lock()
+	defer ctl.mu.Unlock()
+	for f := range ctl.open {
+		f.f.Close()
+	}
+	ctl.open = map[*File]bool{}
+}
+
+// OpenCount is the number of descriptors opened through the shim and not yet closed.
+func OpenCount() int {
+	ctl.mu.Lock()
+	defer ctl.mu.Unlock()
+	return len(ctl.open)
+}
+
 func flagString(flag int) string {
 	s := ""
 	if flag&O_CREATE != 0 {
@@ -239,6 +277,9 @@ func OpenFile(name string, flag int, perm FileMode) (*File, error) {
 	if err == nil {
 		vf = &File{f: f, path: name}
 		ctl.mu.Lock()
+		if ctl.open == nil {
+			ctl.open = map[*File]bool{}
+		}
 		ctl.open[vf] = true
 		ctl.mu.Unlock()
 	}
@@ -390,16 +431,164 @@ func (f *File) Seek(o int64, w int) (int64, error) {
 	return n, err
 }
 
+// ---- the rest of package os a changed cache package may reach for: enough of it that such a
+// tree can still be run under fault plans and schedules (operations the model does not have show
+// up in the trace comparison; the direct oracles apply regardless)
+
+const (
+	O_SYNC   = os.O_SYNC
+	ModePerm = fs.ModePerm
+)
+
+var (
+	ErrNotExist = fs.ErrNotExist
+	ErrExist    = fs.ErrExist
+	ErrClosed   = fs.ErrClosed
+	Args        = os.Args
+)
+
+type PathError = fs.PathError
+type DirEntry = fs.DirEntry
+
+func Getpid() int                             { return os.Getpid() }
+func IsExist(err error) bool                  { return os.IsExist(err) }
+func TempDir() string                         { return os.TempDir() }
+func ReadDir(name string) ([]DirEntry, error) { return os.ReadDir(name) }
+func Mkdir(p string, m FileMode) error        { return os.Mkdir(p, m) }
+func RemoveAll(p string) error                { return os.RemoveAll(p) }
+func SameFile(a, b FileInfo) bool             { return os.SameFile(a, b) }
+func Readlink(name string) (string, error)    { return os.Readlink(name) }
+func Create(name string) (*File, error)       { return OpenFile(name, O_RDWR|O_CREATE|O_TRUNC, 0o666) }
+func Lstat(name string) (FileInfo, error) {
+	a := enter(OpRec{Name: "stat", Path: name})
+	if a.failing() {
+		return nil, ErrInjected
+	}
+	if a.kind == "torn" {
+		a.leave()
+	}
+	fi, err := os.Lstat(name)
+	a.leave()
+	return fi, err
+}
+
+func simpleOp(op, name string, f func() error) error {
+	a := enter(OpRec{Name: op, Path: name})
+	if a.failing() {
+		return ErrInjected
+	}
+	if a.kind == "torn" {
+		a.leave()
+	}
+	err := f()
+	a.leave()
+	return err
+}
+
+func Rename(oldp, newp string) error {
+	return simpleOp("rename", newp, func() error { return os.Rename(oldp, newp) })
+}
+func Link(oldp, newp string) error {
+	return simpleOp("link", newp, func() error { return os.Link(oldp, newp) })
+}
+func Symlink(oldp, newp string) error {
+	return simpleOp("symlink", newp, func() error { return os.Symlink(oldp, newp) })
+}
+func Truncate(name string, size int64) error {
+	return simpleOp("truncate", name, func() error { return os.Truncate(name, size) })
+}
+func Chmod(name string, m FileMode) error {
+	return simpleOp("chmod", name, func() error { return os.Chmod(name, m) })
+}
+
+// CreateTemp is one open operation on the name it chose.
+func CreateTemp(dir, pattern string) (*File, error) {
+	a := enter(OpRec{Name: "open", Path: dir + "/" + pattern, Flags: "cx"})
+	if a.failing() {
+		return nil, ErrInjected
+	}
+	if a.kind == "torn" {
+		a.leave()
+	}
+	f, err := os.CreateTemp(dir, pattern)
+	var vf *File
+	if err == nil {
+		vf = &File{f: f, path: f.Name()}
+		ctl.mu.Lock()
+		if ctl.open == nil {
+			ctl.open = map[*File]bool{}
+		}
+		ctl.open[vf] = true
+		ctl.mu.Unlock()
+	}
+	a.leave()
+	if err != nil {
+		return nil, err
+	}
+	return vf, nil
+}
+
+func (f *File) Fd() uintptr { return f.f.Fd() }
+func (f *File) Sync() error {
+	return simpleOp("sync", f.path, func() error { return f.f.Sync() })
+}
+func (f *File) Chmod(m FileMode) error {
+	return simpleOp("chmod", f.path, func() error { return f.f.Chmod(m) })
+}
+func (f *File) ReadAt(p []byte, off int64) (int, error) {
+	a := enter(OpRec{Name: "read", Path: f.path, Off: off, N: len(p)})
+	if a.kind == "fail" {
+		return 0, ErrInjected
+	}
+	if a.kind == "torn" {
+		a.leave()
+	}
+	if a.kind == "short" && a.j < len(p) {
+		p = p[:a.j]
+	}
+	n, err := f.f.ReadAt(p, off)
+	if a.kind == "short" {
+		return n, ErrInjected
+	}
+	a.leave()
+	return n, err
+}
+func (f *File) WriteAt(b []byte, off int64) (int, error) {
+	rec := OpRec{Name: "write", Path: f.path, Off: off, N: len(b)}
+	a := enter(rec)
+	switch a.kind {
+	case "fail":
+		return 0, ErrInjected
+	case "short", "torn":
+		j := a.j
+		if j > len(b)-1 {
+			j = len(b) - 1
+		}
+		if j < 0 {
+			j = 0
+		}
+		n, _ := f.f.WriteAt(b[:j], off)
+		if a.kind == "torn" {
+			a.leave()
+		}
+		return n, io.ErrShortWrite
+	}
+	n, err := f.f.WriteAt(b, off)
+	a.leave()
+	return n, err
+}
+func (f *File) ReadDir(n int) ([]DirEntry, error) { return f.f.ReadDir(n) }
+
 // ---- cooperative scheduler (C11)
 
 type sched struct {
-	mu      sync.Mutex
-	byGo    map[uint64]int
-	grant   []chan struct{}
-	yield   chan int // a client is parked at an operation
-	done    chan int // a client has finished
-	parked  []bool
-	alive   []bool
+	mu     sync.Mutex
+	byGo   map[uint64]int
+	grant  []chan struct{}
+	yield  chan int // a client is parked at an operation
+	done   chan int // a client has finished
+	parked []bool
+	alive  []bool
 }
 
 func goid() uint64 {
